@@ -637,9 +637,15 @@ def _apikey_rules(cls: Class, rep: Report) -> None:
             if pairs and set(want) & set(pairs):
                 tg = st.targets[0] if isinstance(st, ast.Assign) else st.target
                 table = (tg.id if isinstance(tg, ast.Name) else "?", pairs)
-    if table is not None and not any(isinstance(s_, ast.If) and "self.location" in norm(AL.inline(s_.test)) for s_ in m.node.body):  # type: ignore[attr-defined]
+    def _explicit_switch(t_: ast.AST) -> bool:
+        """`self.location == "<literal>"` somewhere in the test (an if-chain over the locations, not a test of a looked-up value)"""
+        return any(isinstance(x, ast.Compare) and len(x.ops) == 1 and isinstance(x.ops[0], (ast.Eq, ast.In)) and norm(AL.inline(x.left)) == "self.location"
+                   and all(isinstance(y, ast.Constant) for y in ast.walk(x.comparators[0]) if isinstance(y, (ast.Constant, ast.Name))) for x in ast.walk(t_))
+
+    if table is not None and not any(isinstance(s_, ast.If) and _explicit_switch(s_.test) for s_ in m.node.body):  # type: ignore[attr-defined]
         tname, pairs = table
         scope = [m] + [h for hn, h in cls.methods.items() if any(isinstance(c.func, ast.Attribute) and c.func.attr == hn for c in calls_in(m.node))]
+        scope += [h for hn, h in cls.module.functions.items() if "." not in hn and any(isinstance(c.func, ast.Name) and c.func.id == hn for c in calls_in(m.node))]
         looks_up = any(isinstance(x, ast.Name) and x.id == tname for f_ in scope for x in ast.walk(f_.node)) and any(
             "self.location" in norm(x) for f_ in scope for x in ast.walk(f_.node) if isinstance(x, (ast.Compare, ast.Subscript, ast.Call)))
         raises = any(isinstance(x, ast.Raise) and x.exc is not None and "ValueError" in norm(x.exc) for f_ in scope for x in ast.walk(f_.node))
